@@ -640,3 +640,45 @@ def history_free(ctx):
     that depends on the arguments of an earlier call (Key._address_obj) outside its validating accessor, or fills another memo from it."""
     from .common_cache import history_reads as run
     run(ctx, 'keys', [['Key', 'HDKey']], 'Key / HDKey', 'the hash / address reported for the key is the one of the form (compressed or not, prefix) asked for by an earlier call')
+
+
+@PROP.obligation('C04.uncompressed-bech32', canaries=[
+    mut.replace_expr('keys', 'Key.address', "not compressed and encoding == 'bech32'", "not compressed and encoding == 'bech32' and not self._address_obj", 'refusal skipped when an address was produced before'),
+])
+def uncompressed_bech32(ctx):
+    """A witness program over the hash of an UNCOMPRESSED public key is not an output its owner can spend in the standard way; Key.address
+    refuses it. The method is evaluated as a whole for the uncompressed form with the encoding given explicitly, and with the encoding left
+    to the one remembered from an earlier call (`self._address_obj.encoding`): every way out is a refusal or an address whose encoding is
+    not bech32 - the refusal looks at the encoding that is finally used, not only at the argument."""
+    q = 'keys:Key.address'
+    fn = ctx.repo.func(q)
+    AO = ('var', 'ao')
+    A = lambda b, n: ('attr', b, n)
+    n = 0
+    for remembered, enc in (('bech32', None), ('bech32', 'bech32'), (None, 'bech32'), ('base58', 'bech32'), ('base58', None), (None, None)):
+        heap = {A(SELF, 'compressed'): True, A(SELF, '_address_obj'): (S(AO) if remembered else None)}
+        if remembered:
+            heap.update({A(AO, 'encoding'): remembered, A(AO, 'script_type'): 'p2wpkh' if remembered == 'bech32' else 'p2pkh', A(AO, 'prefix'): None})
+        calls = []
+
+        def h_addr(it, args, kwargs, st, node):
+            calls.append({k: (v if isinstance(v, (str, bytes, bool, type(None))) else term(v)) for k, v in kwargs.items()})
+            return S(('var', 'newaddr'))
+        it = Interp(ctx.repo, 'keys', hooks={'Address': h_addr}, self_cls='keys:Key', decide=lambda t: True if t == AO else None)
+        try:
+            exits = it.run_function(fn, {'self': S(SELF), 'compressed': False, 'prefix': None, 'script_type': None, 'encoding': enc}, State(heap=heap))
+        except AnalysisError as e:
+            ctx.undecided('Key.address(compressed=False, encoding=%r) with %s remembered not evaluable: %s' % (enc, remembered, str(e)[:100]))
+        if any(e.pc for e in exits):
+            ctx.undecided('Key.address(compressed=False, encoding=%r) with %s remembered: outcome depends on %s' % (enc, remembered, [show(t)[:50] for e in exits for t, _ in e.pc][:2]))
+        n += 1
+        final = [c.get('encoding') for c in calls]
+        rets = [e for e in exits if e.kind == 'return']
+        ctx.saw('uncompressed form, encoding=%r, remembered %s -> %s' % (enc, remembered, 'refused' if not rets else 'address with encoding %s' % final))
+        want_refusal = enc == 'bech32' or (enc is None and remembered == 'bech32')
+        if want_refusal:
+            ctx.require(not rets or (final and all(f != 'bech32' for f in final)), q, 'Key.address(compressed=False, encoding=%r) after a call that left %s as the remembered encoding returns a bech32 address over the uncompressed key' % (enc, remembered), fn,
+                        'k.address(encoding="bech32"); k.address_uncompressed() hands out bc1q... over HASH160 of the 65-byte key: an output its owner cannot spend in the standard way')
+        else:
+            ctx.require(bool(rets) and final and all(f == 'base58' for f in final), q, 'Key.address(compressed=False, encoding=%r) with %s remembered: %s' % (enc, remembered, 'refused' if not rets else final), fn)
+    ctx.floor(n, 6, 'encoding scenarios')
